@@ -582,9 +582,31 @@ impl HttpContext {
                 .map(ToOwned::to_owned);
         }
 
-        // if self.method == Some(Method::Get) && request.body_size == kawa::BodySize::Empty {
-        //     request.parsing_phase = kawa::ParsingPhase::Terminated;
-        // }
+        // RFC 9112 §6.3 rule 6: an HTTP/1 request with neither Transfer-Encoding
+        // nor Content-Length has no body (an HTTP/2 request is framed by
+        // END_STREAM, resolved by the caller). Kawa leaves such a message in the Body
+        // phase with an unbounded length (the close-delimited reading, which
+        // only exists for responses); everything a client pipelines behind it
+        // would then be relayed to the backend verbatim as "body", unparsed,
+        // unrouted and undecorated.
+        if request.body_size == kawa::BodySize::Empty
+            && !matches!(
+                request.detached.status_line,
+                kawa::StatusLine::Request {
+                    version: kawa::Version::V20,
+                    ..
+                }
+            )
+            && !request.blocks.iter().any(|block| match block {
+                kawa::Block::Header(header) if !header.is_elided() => {
+                    compare_no_case(header.key.data(buf), b"transfer-encoding")
+                }
+                _ => false,
+            })
+        {
+            request.body_size = kawa::BodySize::Length(0);
+            request.parsing_phase = kawa::ParsingPhase::Terminated;
+        }
 
         let public_ip = self.public_address.ip();
         let public_port = self.public_address.port();
